@@ -139,6 +139,7 @@ type Enc struct {
 	ghostModel   [][2]string
 	skippedImplicit int
 	usedPrivate  map[string]bool
+	ifaceType    map[string]int
 	curTag       int
 	ntag         int
 	curAllowed   map[int]bool
@@ -147,7 +148,7 @@ type Enc struct {
 func newEnc(p *Prog, fn *ssa.Function, spec *FuncSpec) *Enc {
 	e := &Enc{p: p, st: newSortTable(), regionSort: map[string]string{}, regionConst: map[string]string{}, root: fn, rootSpec: spec,
 		abstractions: map[string]bool{}, strLits: map[string]string{}, oblNames: map[string]int{},
-		usedTrusted: map[string]string{}, usedHavoc: map[string]bool{}, usedInline: map[string]bool{}, usedEffFree: map[string]bool{}, tupleVals: map[tupleKey]string{}, ghostUsed: map[string]bool{}, regionElem: map[string][2]string{}, usedMarks: map[string]int{}, assumedPre: map[string]string{}, alias: map[string]string{}, intValued: map[string]bool{}, shadow: map[string][2]string{}, usedPrivate: map[string]bool{}}
+		usedTrusted: map[string]string{}, usedHavoc: map[string]bool{}, usedInline: map[string]bool{}, usedEffFree: map[string]bool{}, tupleVals: map[tupleKey]string{}, ghostUsed: map[string]bool{}, regionElem: map[string][2]string{}, usedMarks: map[string]int{}, assumedPre: map[string]string{}, alias: map[string]string{}, intValued: map[string]bool{}, shadow: map[string][2]string{}, usedPrivate: map[string]bool{}, ifaceType: map[string]int{}}
 	e.regionSort["heapTop"] = "Int"
 	return e
 }
